@@ -23,6 +23,15 @@ text    TEXT(x,f) for f from the narrow grammar [#,]*0+(.0+#*)?%? = half-away-fr
         of Decimal(repr(x)) (times 100 for %) with forced/optional digits and thousands grouping.
 error   an error value in any argument position comes back as the result; nothing raises.
 
+Mechanism keys are predicates over the failing case: ``<FUNC>/raises-<Exception>``; for a wrong value
+first "is it what the model gives when numbers are written the way python's str() writes them" (->
+NUMBER-RENDERING/float-below-1e-4-in-exponent-notation | integral-float-keeps-.0 | python-str, one key for
+all functions: they share the coercion), else a per-function predicate over the arguments (negative count,
+start below 1, zero count, at-or-beyond-the-end, interior; FIND: start-below-1, start-beyond-length,
+empty-needle, no-match-not-VALUE, match-missed, not-the-first-match; SUBSTITUTE: all-occurrences,
+ith-occurrence, instance-...; TRIM: keeps-leading-trailing, keeps-inner-runs; TEXT: grouping, sign,
+optional-digits, forced-integer-digits, half-even-or-binary-rounding, percent-scaling; ...).
+
 Deliberately permissive (the statement is silent or can be read two ways):
 * FIND with an empty needle and start > LEN(s): `start` and #VALUE! are both accepted.
 * FIND where an exact and a case-insensitive reading of "MID(s,p,LEN(f)) = f" give different first
@@ -60,8 +69,8 @@ RULE = ('exhaustive: every string of length <= 3 (quick) / <= 4 (thorough) over 
         'e-acute, CJK} x every n, k in -1..10 for LEFT/RIGHT/MID/REPLACE (3 replacement texts), x every needle '
         'of length <= 2 x start in {default, -1..10} for FIND, x every non-self-overlapping needle of length '
         '<= 2 x 3 new texts x instance in {none, -1..5} for SUBSTITUTE, TRIM/UPPER/LOWER (also every string '
-        'of length 4..5 over {a, space, E-acute}), EXACT partners, CONCATENATE vs &; ~180 numbers k/10^j (int, integral float, fraction, below 1e-4), TRUE/FALSE and '
-        'blank as the sliced argument; TEXT over 160 formats of the grammar [#,]*0+(.0+#*)?%? x k/10^j '
+        'of length 4..5 over {a, space, E-acute}), EXACT partners, CONCATENATE vs &; ~180 numbers k/10^j '
+        '(int, integral float, fraction, below 1e-4), TRUE/FALSE and blank as the sliced argument; TEXT over 160 formats of the grammar [#,]*0+(.0+#*)?%? x k/10^j '
         '(k <= 330 quick / 1300 thorough + boundary mantissas, j <= 4 / 5, both signs, every exact tie '
         'included); every error code in every argument position; then seeded random strings of length '
         '1..8 over an 11-symbol alphabet with case pairs and digits. One case = one law instance checked '
@@ -139,21 +148,23 @@ def _same(got, want):
     return (not isinstance(got, (bool, str)) and isinstance(got, (int, float)) and got == want)
 
 
-def py_str(v):
-    """what python's str() makes of a number (3.0, 1e-05): the rendering the statement rules out.  Only used
-    to *name* a mechanism after a comparison has failed (got == the model fed with this rendering)"""
-    if isinstance(v, bool) or not isinstance(v, (int, float)):
+RENDERING_MODES = (
+    ('exp', 'NUMBER-RENDERING/float-below-1e-4-in-exponent-notation'),
+    ('dot0', 'NUMBER-RENDERING/integral-float-keeps-.0'),
+    ('both', 'NUMBER-RENDERING/python-str'),
+)
+
+
+def py_str(mode):
+    """-> converter: what python's str() makes of a number (1e-05 / 3.0), the renderings the statement rules
+    out.  Only used to *name* a mechanism after a comparison has failed (got == the model fed with it)"""
+    def conv(v):
+        k = R.kind(v)
+        if (k == 'float-below-1e-4' and mode in ('exp', 'both')) or \
+                (k == 'integral-float' and mode in ('dot0', 'both')) or (k == 'float' and mode == 'both'):
+            return str(v)
         return v
-    return str(v)
-
-
-def _rendering_key(args):
-    kinds = {R.kind(a) for a in args}
-    if 'float-below-1e-4' in kinds:
-        return 'NUMBER-RENDERING/float-below-1e-4-in-exponent-notation'
-    if 'integral-float' in kinds:
-        return 'NUMBER-RENDERING/integral-float-keeps-.0'
-    return 'NUMBER-RENDERING/python-str'
+    return conv
 
 
 def _exc_class(out):
@@ -226,11 +237,15 @@ class Mon:
         if out[0] == 'x':
             key = f'{func}/raises-{_exc_class(out)}'
         else:
-            a = alt() if alt is not None and any(py_str(x) is not x for x in args) else ()
-            a = a if isinstance(a, tuple) else (a,)
-            if any(_same(out[1], w) for w in a):
-                key = _rendering_key(args)
-            else:
+            key = None
+            if alt is not None and any(R.kind(x) in ('float-below-1e-4', 'integral-float') for x in args):
+                for mode, mode_key in RENDERING_MODES:
+                    a = alt(py_str(mode))
+                    a = a if isinstance(a, tuple) else (a,)
+                    if any(_same(out[1], w) for w in a):
+                        key = mode_key
+                        break
+            if key is None:
                 key = specific(out[1])
         want = ' or '.join(repr(w) for w in accept)
         self.ctx.violation(key, f'{func}({", ".join(repr(a) for a in args)}) = {out[1]!r}, expected {want} '
@@ -280,10 +295,10 @@ def law_slice(ctx, s, n, force=False, sig=None):
     cl = 'the slicing functions treat numbers as their Excel rendering and give #VALUE! for negative counts'
     lf = m.call('left', s, n)
     ok_l = m.expect('LEFT', (s, n), lf, R.left(s, ni), 'LEFT(s,n) is the first n characters; ' + cl,
-                    _slice_key('LEFT', s, [ni]), alt=lambda: R.left(py_str(s), ni))
+                    _slice_key('LEFT', s, [ni]), alt=lambda P: R.left(P(s), ni))
     rt = m.call('right', s, n)
     m.expect('RIGHT', (s, n), rt, R.right(s, ni), 'RIGHT(s,k) is the last k characters; ' + cl,
-             _slice_key('RIGHT', s, [ni]), alt=lambda: R.right(py_str(s), ni))
+             _slice_key('RIGHT', s, [ni]), alt=lambda P: R.right(P(s), ni))
     ln = m.call('len_', s)
     numeric = R.kind(s) in ('int', 'integral-float', 'float', 'float-below-1e-4')
     if (numeric and not STRICT_LEN_OF_NUMBERS and ln[0] == 'v' and _is_int_value(ln[1])
@@ -295,12 +310,12 @@ def law_slice(ctx, s, n, force=False, sig=None):
     else:
         m.expect('LEN', (s,), ln, R.length(s), 'LEN(s) is the number of characters of s (at least the rest of s in '
                  'MID(s,n+1,LEN(s)))',
-                 lambda got: 'LEN/' + R.kind(s), alt=lambda: R.length(py_str(s)))
+                 lambda got: 'LEN/' + R.kind(s), alt=lambda P: R.length(P(s)))
     cnt = ln[1] if ln[0] == 'v' and _is_int_value(ln[1]) and ln[1] >= 0 else R.length(s)
     md = m.call('mid', s, n + 1, cnt)
     ok_m = m.expect('MID', (s, n + 1, cnt), md, R.mid(s, ni + 1, int(cnt)), 'MID(s,n+1,LEN(s)) is the rest after n '
                     'characters; ' + cl, _slice_key('MID', s, [int(cnt)], start=ni + 1),
-                    alt=lambda: R.mid(py_str(s), ni + 1, int(cnt)))
+                    alt=lambda P: R.mid(P(s), ni + 1, int(cnt)))
     if ni >= 0 and lf[0] == md[0] == 'v' and not R.is_error(lf[1]) and not R.is_error(md[1]):
         ctx.count('identity:left&mid')
         j = m.amp(lf[1], md[1])
@@ -310,9 +325,9 @@ def law_slice(ctx, s, n, force=False, sig=None):
     if ni == 1:
         ctx.count('default-count')
         m.expect('LEFT', (s,), m.call('left', s), R.left(s, 1), 'LEFT(s) = LEFT(s,1)',
-                 lambda got: 'LEFT/default-count')
+                 lambda got: 'LEFT/default-count', alt=lambda P: R.left(P(s), 1))
         m.expect('RIGHT', (s,), m.call('right', s), R.right(s, 1), 'RIGHT(s) = RIGHT(s,1)',
-                 lambda got: 'RIGHT/default-count')
+                 lambda got: 'RIGHT/default-count', alt=lambda P: R.right(P(s), 1))
     m.done(s, sig)
 
 
@@ -325,13 +340,13 @@ def law_mid(ctx, s, n, k, ts, force=False, sig=None):
         ctx.count('start<1')
     cl = 'negative counts give #VALUE!; numbers are sliced as their Excel rendering'
     m.expect('MID', (s, n, k), m.call('mid', s, n, k), R.mid(s, ni, ki), 'MID(s,n,k) is k characters from '
-             'position n; ' + cl, _slice_key('MID', s, [ki], start=ni), alt=lambda: R.mid(py_str(s), ni, ki))
+             'position n; ' + cl, _slice_key('MID', s, [ki], start=ni), alt=lambda P: R.mid(P(s), ni, ki))
     for i, t in enumerate(ts):
         rp = m.call('replace', s, n, k, t)
         ok = m.expect('REPLACE', (s, n, k, t), rp, R.replace(s, ni, ki, t),
                       'REPLACE(s,n,k,t) = LEFT(s,n-1) & t & MID(s,n+k,LEN(s)); ' + cl,
                       _slice_key('REPLACE', s, [ki], start=ni),
-                      alt=lambda t=t: R.replace(py_str(s), ni, ki, py_str(t)))
+                      alt=lambda P, t=t: R.replace(P(s), ni, ki, P(t)))
         if i == 0 and ni >= 1 and ki >= 0 and rp[0] == 'v':
             # the identity computed by pycel alone
             ctx.count('identity:replace')
@@ -387,7 +402,7 @@ def law_find(ctx, f, s, start, force=False, sig=None):
             return 'FIND/match-before-start'
         return 'FIND/unclassified'
     m.expect('FIND', args, out, accept, 'FIND returns the first position p (>= start) with MID(s,p,LEN(f)) = f '
-             'or #VALUE!; start < 1 -> #VALUE!', key, alt=lambda: R.find(py_str(f), py_str(s), st))
+             'or #VALUE!; start < 1 -> #VALUE!', key, alt=lambda P: R.find(P(f), P(s), st))
     m.done(s, sig)
 
 
@@ -420,8 +435,8 @@ def law_sub(ctx, s, old, new, inst, force=False, sig=None):
             return 'SUBSTITUTE/instance-beyond-count-changes-text'
         return 'SUBSTITUTE/ith-occurrence'
     m.expect('SUBSTITUTE', args, out, accept, 'SUBSTITUTE replaces all or exactly the i-th occurrence', key,
-             alt=lambda: R.substitute(py_str(s), py_str(old), py_str(new), ii)
-             if R.render(py_str(old)) and not R.self_overlapping(R.render(py_str(old))) else ())
+             alt=lambda P: R.substitute(P(s), P(old), P(new), ii)
+             if R.render(P(old)) and not R.self_overlapping(R.render(P(old))) else ())
     m.done(s, sig)
 
 
@@ -447,7 +462,7 @@ def law_case(ctx, s, force=False, sig=None):
             return 'TRIM/keeps-inner-runs'
         return 'TRIM/unclassified'
     m.expect('TRIM', (s,), t1, want, 'TRIM leaves single inner spaces and none at the ends', trim_key,
-             alt=lambda: R.trim(py_str(s)))
+             alt=lambda P: R.trim(P(s)))
     for name in ('trim', 'upper', 'lower'):
         once = t1 if name == 'trim' else m.call(name, s)
         if once[0] != 'v':
